@@ -1,12 +1,14 @@
 // C03 - element-wise array arithmetic, type promotion and value semantics.
 // Engine E1: the compile-time grid {arr_real, arr_cmplx} x {arr_real, arr_cmplx, real_t, int, cmplx_t, std::complex<double>}
 // x {left, right} x {+,-,*,/} x {binary, compound} + unary, instantiated for every combination the library accepts,
-// run for every length 0..64 (+1000, +10000) over a value alphabet that contains zeros, -0 and magnitudes 1e-100..1e100
-// laid out so that every ordered pair of values occurs; plus length mismatches, operand preservation, copy/move
-// independence, aliasing, concatenation, zeropad, mask and index-list selection; plus (E2-style) every expression tree
-// of depth <= 2 and every left-deep chain of depth <= 6 over {+,-,*,/,unary -} and leaves {real array, complex array,
-// real scalar, complex scalar}, evaluated by a variant-typed interpreter that dispatches to the real operators, against a
-// scalar interpreter in std::complex<long double> carrying a forward error bound.
+// run for every length 0..64 (thorough 0..128), 1000 and - in both tiers - 5000 and 70000 (thorough also 10000, 200000) over a
+// value alphabet that contains zeros, -0 and magnitudes 1e-100..1e100 laid out so that every ordered pair of values occurs;
+// plus length mismatches, operand preservation, copy/move independence, aliasing, concatenation, zeropad, mask and index-list
+// selection (each also on arrays of 5000 / 70000 / 200000 elements); plus (E2-style) every expression tree of depth <= 2
+// (thorough: depth 3 with one shallow operand), every left-deep chain of depth <= 5 (thorough 7) over {+,-,*,/,unary -} and
+// leaves {real array, complex array, real scalar, complex scalar}, and every sequence of <= 4 (thorough 6) aliasing statements
+// on one array variable (a op= a, a op= b, a = a op a, a = a op b, a = b op a, a = -a), evaluated on the real operators
+// against a scalar interpreter in std::complex<long double> carrying a forward error bound.
 //
 // Oracle (never more than the statement):
 //  * + and - : the IEEE double operation applied componentwise, compared with == (so +0 and -0 are not distinguished:
@@ -151,7 +153,11 @@ template<class L, class R, class Op>
 constexpr bool binary_supported() {
     if (!Tr<L>::arr && !Tr<R>::arr) return false;
     constexpr bool real_arr_with_stdc = (std::is_same_v<L, arr_real> && std::is_same_v<R, stdc>) || (std::is_same_v<L, stdc> && std::is_same_v<R, arr_real>);
-    if (real_arr_with_stdc && Op::c != '*') return false;
+    // + - / of a real array with std::complex<double>: accepted since ResultType promotes for every complex scalar type and
+    // cmplx_t's arithmetic constructor is constrained; on a tree without these two (compile-time fingerprints below) the forms
+    // do not compile and are left to the compile probes
+    constexpr bool stdc_promotes = std::is_same_v<dsplib::ResultType<real_t, stdc>, cmplx_t> && !std::is_constructible_v<cmplx_t, std::vector<cmplx_t>>;
+    if (real_arr_with_stdc && Op::c != '*' && !stdc_promotes) return false;
     return true;
 }
 template<class L, class R>
@@ -271,11 +277,17 @@ static void check_elems(Ctx& ctx, const char* site, char op, const RA& r, int n,
     if (skipped) ctx.note("elements outside the domain (zero divisor), not judged", skipped);
 }
 
+// every length 0..64 (thorough 0..128), 1000, and in BOTH tiers sizes above 4096 and above 65536 (size-threshold defects:
+// retained scratch buffers, 16-bit offsets); thorough adds 10000 and 200000
+static const int BIG1 = 5000, BIG2 = 70000, BIG3 = 200000;
 static std::vector<int> lengths(bool T) {
     std::vector<int> v;
-    for (int n = 0; n <= 64; ++n) v.push_back(n);
+    for (int n = 0; n <= (T ? 128 : 64); ++n) v.push_back(n);
     v.push_back(1000);
+    v.push_back(BIG1);
+    v.push_back(BIG2);
     if (T) v.push_back(10000);
+    if (T) v.push_back(BIG3);
     return v;
 }
 static bool full_len(int n) { return n <= 3 || n == 5 || n == 8 || n == 16 || n == 33 || n == 64 || n == 1000; }
@@ -613,6 +625,57 @@ static void grid_sibling(Ctx& ctx, bool compound) {
     ctx.nontrivial();
 }
 
+// A std::complex<double> scalar must act exactly as its cmplx_t conversion: every form with a std::complex<double> operand is
+// compared BIT FOR BIT with the same form taking cmplx_t(z), over the grid alphabet and the extended alphabet (all 113
+// scalar values x all array values).  Holds on the unchanged tree for all 20 forms.
+template<class A, class Op>
+static void grid_stdc_equiv(Ctx& ctx, int form) {   // 0: a op z, 1: z op a, 2: a op= z
+    using E = typename Tr<A>::elem;
+    const std::string id = form == 0 ? std::string(Tr<A>::name()) + " " + Op::c + " std::complex<double>"
+                                     : (form == 1 ? std::string("std::complex<double> ") + Op::c + " " + Tr<A>::name() : std::string(Tr<A>::name()) + " " + Op::c + "= std::complex<double>");
+    if (!ctx.take("stdc.equiv", P().kv("expr", id))) return;
+    std::vector<E> av = ext_vals<E>();
+    for (int k = 0; k < Tr<A>::nv(); ++k) av.push_back(Tr<A>::val(k));
+    std::vector<cmplx_t> zs = ext_vals<cmplx_t>();
+    zs.insert(zs.end(), VC.begin(), VC.end());
+    const A a0(av);
+    long judged = 0;
+    for (const cmplx_t& zc : zs) {
+        const stdc z(zc.re, zc.im);
+        arr_cmplx r1, r2;
+        if (form == 0) {
+            if constexpr (binary_supported<A, stdc, Op>()) r1 = Op::ap(a0, z);
+            r2 = Op::ap(a0, zc);
+        } else if (form == 1) {
+            if constexpr (binary_supported<stdc, A, Op>()) r1 = Op::ap(z, a0);
+            r2 = Op::ap(zc, a0);
+        } else {
+            if constexpr (Tr<A>::cplx) {
+                A t1 = a0, t2 = a0;
+                Op::cp(t1, z);
+                Op::cp(t2, zc);
+                r1 = t1;
+                r2 = t2;
+            }
+        }
+        if (r1.size() != a0.size() || r2.size() != a0.size()) {
+            ctx.fail("stdc.equiv", fmt("result lengths %d / %d", r1.size(), r2.size()), fmt("%d", a0.size()));
+            return;
+        }
+        for (int i = 0; i < a0.size(); ++i) {
+            ++judged;
+            if (!bits_or_nan(view(r1[i]), view(r2[i]))) {
+                ctx.fail("stdc.equiv", fmt("element %s, scalar (%g,%g): with std::complex<double> %s, with cmplx_t %s", sstr(view(a0[i])).c_str(), zc.re, zc.im, sstr(view(r1[i])).c_str(), sstr(view(r2[i])).c_str()),
+                         "bit-identical results", P().kv("i", i));
+                return;
+            }
+        }
+    }
+    ctx.evaluations += (uint64_t)judged;
+    ctx.checks[ctx.cur_check].evals += (uint64_t)judged;
+    ctx.nontrivial();
+}
+
 // ------------------------------------------------------------------------------------------------ value semantics
 template<class E>
 static E tagv(int i);
@@ -644,7 +707,11 @@ template<class E>
 static void value_semantics(Ctx& ctx) {
     using A = base_array<E>;
     const char* tn = Tr<A>::name();
-    for (int n = 0; n <= 16; ++n) {
+    std::vector<int> ns;
+    for (int n = 0; n <= 16; ++n) ns.push_back(n);
+    ns.push_back(BIG1);
+    ns.push_back(BIG2);
+    for (int n : ns) {
         if (!ctx.take("copy", P().kv("type", tn).kv("n", n))) continue;
         const A src0 = tagged<E>(n);
         A src = src0;
@@ -725,8 +792,8 @@ static void aliasing(Ctx& ctx, bool T) {
                 if (!bits_equal(a, a0)) ctx.fail("a op a", "operand modified", "unchanged");
             }
         });
-        if (n <= 64) {
-            forked(ctx, "a |= a", 20.0, [&](ChildCtx& c) {
+        if (n <= 64 || n == BIG1 || n == BIG2) {
+            forked(ctx, "a |= a", 60.0, [&](ChildCtx& c) {
                 fb::label("a |= a");
                 using E = typename Tr<A>::elem;
                 for (int rep = 0; rep < 2; ++rep) {   // rep 1: after a previous growth (spare capacity)
@@ -860,7 +927,7 @@ static void zeropad_checks(Ctx& ctx) {
 template<class E>
 static void selection_checks(Ctx& ctx, bool T) {
     using A = base_array<E>;
-    const int NM = (T && !g_asan) ? 10 : 8;
+    const int NM = T ? (g_asan ? 12 : 14) : 8;
     for (int n = 0; n <= NM; ++n) {
         const A x = tagged<E>(n);
         for (int blk = 0; blk < (1 << n); blk += 64) {
@@ -880,9 +947,9 @@ static void selection_checks(Ctx& ctx, bool T) {
         }
     }
     // index lists of length 1..3 over 0..n-1 (an empty list is the misuse case of C05 / F7, not generated here)
-    for (int n = 1; n <= 5; ++n) {
+    for (int n = 1; n <= (T ? 7 : 5); ++n) {
         const A x = tagged<E>(n);
-        for (int len = 1; len <= 3; ++len) {
+        for (int len = 1; len <= (T ? 5 : 3); ++len) {
             if (!ctx.take("indexlist", P().kv("type", Tr<A>::name()).kv("n", n).kv("len", len))) continue;
             int total = 1;
             for (int j = 0; j < len; ++j) total *= n;
@@ -895,6 +962,136 @@ static void selection_checks(Ctx& ctx, bool T) {
             }
             if (len >= 2) ctx.nontrivial();
         }
+    }
+}
+
+// sizes above 4096 and above 65536 (both tiers): mask selection, index-list selection, concatenation, zeropad
+template<class E>
+static void big_checks(Ctx& ctx) {
+    using A = base_array<E>;
+    const char* tn = Tr<A>::name();
+    auto seq_ok = [](const A& y, const std::vector<int>& want, int& at) {
+        if (y.size() != (int)want.size()) {
+            at = -1;
+            return false;
+        }
+        for (int i = 0; i < y.size(); ++i) {
+            const E e = tagv<E>(want[(size_t)i]);
+            if (std::memcmp(&y[i], &e, sizeof(E)) != 0) {
+                at = i;
+                return false;
+            }
+        }
+        return true;
+    };
+    for (int n : {BIG1, BIG2, BIG3}) {
+        const A x = tagged<E>(n);
+        const A x0 = x;
+        // ---- masks
+        const char* pats[] = {"all", "none", "alternating", "every3rd", "first", "last", "hash", "upper-half"};
+        for (int pi = 0; pi < 8; ++pi) {
+            if (!ctx.take("big.mask", P().kv("type", tn).kv("n", n).kv("pattern", pats[pi]))) continue;
+            std::vector<bool> m((size_t)n);
+            std::vector<int> want;
+            for (int i = 0; i < n; ++i) {
+                bool b = false;
+                switch (pi) {
+                    case 0: b = true; break;
+                    case 1: b = false; break;
+                    case 2: b = i & 1; break;
+                    case 3: b = i % 3 == 0; break;
+                    case 4: b = i == 0; break;
+                    case 5: b = i == n - 1; break;
+                    case 6: b = ((uint32_t)i * 2654435761u >> 13) & 1; break;
+                    default: b = i >= n / 2; break;
+                }
+                m[(size_t)i] = b;
+                if (b) want.push_back(i);
+            }
+            int at = 0;
+            A y = x[m];
+            if (!seq_ok(y, want, at)) ctx.fail("operator[](mask)", fmt("n=%d pattern %s: %d elements selected, first wrong position %d", n, pats[pi], y.size(), at), fmt("%zu designated elements in order", want.size()));
+            if (!bits_equal(x, x0)) ctx.fail("operator[](mask)", "array modified", "unchanged");
+            ctx.nontrivial();
+        }
+        // ---- index lists (as std::vector<int> and as arr_int)
+        const char* lists[] = {"reversed", "stride-permutation", "last-repeated", "single-last", "every-4097th"};
+        for (int li = 0; li < 5; ++li) {
+            if (!ctx.take("big.indexlist", P().kv("type", tn).kv("n", n).kv("list", lists[li]))) continue;
+            std::vector<int> idx;
+            switch (li) {
+                case 0:
+                    for (int i = n - 1; i >= 0; --i) idx.push_back(i);
+                    break;
+                case 1:
+                    for (long i = 0; i < n; ++i) idx.push_back((int)((i * 7919 + 3) % n));
+                    break;
+                case 2: idx.assign((size_t)BIG2 + 1, n - 1); break;
+                case 3: idx.push_back(n - 1); break;
+                default:
+                    for (int i = 0; i < n; i += 4097) idx.push_back(i);
+                    break;
+            }
+            int at = 0;
+            A y1 = x[idx];
+            A y2 = x[arr_int(idx)];
+            if (!seq_ok(y1, idx, at) || !seq_ok(y2, idx, at)) ctx.fail("operator[](indices)", fmt("n=%d list %s (%zu indices): lengths %d/%d, first wrong position %d", n, lists[li], idx.size(), y1.size(), y2.size(), at), "designated elements in order");
+            if (!bits_equal(x, x0)) ctx.fail("operator[](indices)", "array modified", "unchanged");
+            ctx.nontrivial();
+        }
+    }
+    // ---- concatenation / zeropad with big parts (tags: part j starts at j * 1000000)
+    const std::vector<std::vector<int>> shapes = {{BIG1, 3}, {3, BIG1}, {BIG2, BIG2}, {0, BIG2, 1, BIG1, 2}, {4096, 4097, 65535, 65537}, {BIG3, 1}};
+    for (size_t si = 0; si < shapes.size(); ++si) {
+        const std::vector<int>& lens = shapes[si];
+        if (!ctx.take("big.concat", P().kv("type", tn).list("lens", lens))) continue;
+        const int k = (int)lens.size();
+        std::vector<A> parts;
+        std::vector<int> want;
+        for (int j = 0; j < k; ++j) {
+            parts.push_back(tagged<E>(lens[(size_t)j], 1000000 * j));
+            for (int i = 0; i < lens[(size_t)j]; ++i) want.push_back(1000000 * j + i);
+        }
+        const std::vector<A> parts0 = parts;
+        const A empty;
+        A r1 = concatenate(parts[0], parts[1], k > 2 ? parts[2] : empty, k > 3 ? parts[3] : empty, k > 4 ? parts[4] : empty);
+        A r2 = parts[0] | parts[1];
+        for (int j = 2; j < k; ++j) r2 = r2 | parts[(size_t)j];
+        A r3 = parts[0];
+        for (int j = 1; j < k; ++j) r3 |= parts[(size_t)j];
+        int at = 0;
+        if (!seq_ok(r1, want, at)) ctx.fail("concatenate", fmt("lengths %s: result length %d, first wrong position %d", show(lens).c_str(), r1.size(), at), "parts in order");
+        if (!seq_ok(r2, want, at)) ctx.fail("operator|", fmt("lengths %s: result length %d, first wrong position %d", show(lens).c_str(), r2.size(), at), "parts in order");
+        if (!seq_ok(r3, want, at)) ctx.fail("operator|=", fmt("lengths %s: result length %d, first wrong position %d", show(lens).c_str(), r3.size(), at), "parts in order");
+        for (int j = 0; j < k; ++j)
+            if (!bits_equal(parts[(size_t)j], parts0[(size_t)j])) ctx.fail("concatenate", "a part was modified", "unchanged");
+        // zeropad of the first part to the total length
+        A z = zeropad(parts[0], (int)want.size());
+        bool zok = z.size() == (int)want.size();
+        for (int i = 0; zok && i < z.size(); ++i) {
+            const E e = i < lens[0] ? parts0[0][i] : E{};
+            if (!(gre_of(z[i]) == gre_of(e) && gim_of(z[i]) == gim_of(e))) zok = false;
+        }
+        if (!zok) ctx.fail("zeropad", fmt("zeropad(%d -> %zu) wrong", lens[0], want.size()), "x followed by zeros");
+        ctx.nontrivial();
+    }
+}
+static void big_mixed_concat(Ctx& ctx) {
+    for (auto nn : std::vector<std::pair<int, int>>{{BIG2, BIG1}, {BIG1, BIG2}, {3, BIG2}}) {
+        const int n1 = nn.first, n2 = nn.second;
+        if (!ctx.take("big.concat.mixed", P().kv("n1", n1).kv("n2", n2))) continue;
+        const arr_real r1 = tagged<real_t>(n1), r2 = tagged<real_t>(n2, 1000000);
+        const arr_cmplx c1 = tagged<cmplx_t>(n1), c2 = tagged<cmplx_t>(n2, 1000000);
+        arr_cmplx rc = r1 | c2, cr = c1 | r2, acc = c1;
+        acc |= r2;
+        bool ok = rc.size() == n1 + n2 && cr.size() == n1 + n2 && acc.size() == n1 + n2;
+        for (int i = 0; ok && i < n1 + n2; ++i) {
+            const cmplx_t e1 = i < n1 ? cmplx_t(r1[i], 0) : c2[i - n1];
+            const cmplx_t e2 = i < n1 ? c1[i] : cmplx_t(r2[i - n1], 0);
+            if (!(rc[i].re == e1.re && rc[i].im == e1.im && cr[i].re == e2.re && cr[i].im == e2.im && acc[i].re == e2.re && acc[i].im == e2.im)) ok = false;
+        }
+        if (!ok) ctx.fail("operator|", fmt("real|complex / complex|real / complex|=real wrong for lengths %d,%d", n1, n2), "promoted concatenation");
+        ctx.nontrivial();
     }
 }
 
@@ -1020,10 +1217,17 @@ static bool neg_bits_ok(const Val& v, const Val& m, std::string& why) {
 }
 
 // unary minus of a program value through the real operator, with the bit-level side condition
-static Val checked_neg(const Val& v, const std::string& prog) {
+// program names are rendered only when a failure is reported (PF: std::string or a callable returning one)
+static std::string pstr(const std::string& s) { return s; }
+template<class F>
+static auto pstr(const F& f) -> decltype(f()) {
+    return f();
+}
+template<class PF>
+static Val checked_neg(const Val& v, const PF& prog) {
     Val m = lib_neg(v);
     std::string why;
-    if (!neg_bits_ok(v, m, why)) g_ctx->fail("expression", "unary minus: " + why, "every component negated bit for bit", P().kv("prog", "-(" + prog + ")"));
+    if (!neg_bits_ok(v, m, why)) g_ctx->fail("expression", "unary minus: " + why, "every component negated bit for bit", P().kv("prog", "-(" + pstr(prog) + ")"));
     return m;
 }
 
@@ -1073,11 +1277,12 @@ static RefVal ref_neg(const RefVal& a) {
 }
 
 // compares the library value of a program with the reference; returns false (and reports) on a mismatch
-static bool prog_compare(Ctx& ctx, const Val& lv, const RefVal& rv, const std::string& prog) {
+template<class PF>
+static bool prog_compare(Ctx& ctx, const Val& lv, const RefVal& rv, const PF& progf) {
     const bool l_arr = lv.index() >= 2, l_cplx = (lv.index() & 1);
     if (l_arr != rv.arr || l_cplx != rv.cplx) {
         ctx.fail("expression", fmt("result is %s %s", l_cplx ? "complex" : "real", l_arr ? "array" : "scalar"), fmt("%s %s", rv.cplx ? "complex" : "real", rv.arr ? "array" : "scalar"),
-                 P().kv("prog", prog));
+                 P().kv("prog", pstr(progf)));
         return false;
     }
     double re[PN], im[PN];
@@ -1091,14 +1296,14 @@ static bool prog_compare(Ctx& ctx, const Val& lv, const RefVal& rv, const std::s
     } else if (lv.index() == 2) {
         const arr_real& a = std::get<2>(lv);
         if (a.size() != PN) {
-            ctx.fail("expression", fmt("result length %d", a.size()), fmt("%d", PN), P().kv("prog", prog));
+            ctx.fail("expression", fmt("result length %d", a.size()), fmt("%d", PN), P().kv("prog", pstr(progf)));
             return false;
         }
         for (int i = 0; i < PN; ++i) re[i] = a[i], im[i] = 0;
     } else {
         const arr_cmplx& a = std::get<3>(lv);
         if (a.size() != PN) {
-            ctx.fail("expression", fmt("result length %d", a.size()), fmt("%d", PN), P().kv("prog", prog));
+            ctx.fail("expression", fmt("result length %d", a.size()), fmt("%d", PN), P().kv("prog", pstr(progf)));
             return false;
         }
         for (int i = 0; i < PN; ++i) re[i] = a[i].re, im[i] = a[i].im;
@@ -1112,7 +1317,7 @@ static bool prog_compare(Ctx& ctx, const Val& lv, const RefVal& rv, const std::s
         const ld err = std::abs(cld(re[i], im[i]) - r.v);
         if (r.e > 0) ctx.worst("expression programs: err / forward bound, allowed 4", (double)(err / r.e));
         if (err > 4 * r.e) {
-            ctx.fail("expression", fmt("element %d = (%.17g,%.17g)", i, re[i], im[i]), fmt("(%.17Lg,%.17Lg) +- %.3Lg", r.v.real(), r.v.imag(), 4 * r.e), P().kv("prog", prog).kv("i", i));
+            ctx.fail("expression", fmt("element %d = (%.17g,%.17g)", i, re[i], im[i]), fmt("(%.17Lg,%.17Lg) +- %.3Lg", r.v.real(), r.v.imag(), 4 * r.e), P().kv("prog", pstr(progf)).kv("i", i));
             return false;
         }
     }
@@ -1121,35 +1326,48 @@ static bool prog_compare(Ctx& ctx, const Val& lv, const RefVal& rv, const std::s
 
 static const char OPS[4] = {'+', '-', '*', '/'};
 
+// left-deep chain = first leaf kind + list of extensions (0..15: op*4 + leaf kind, 16: unary minus)
+static std::string chain_name(int l0, const std::vector<int>& path) {
+    std::string prog = std::string(leaf_name(l0)) + "0";
+    int depth = 0;
+    for (int e : path) {
+        if (e == 16) prog = "-(" + prog + ")";
+        else prog = "(" + prog + " " + OPS[e >> 2] + " " + leaf_name(e & 3) + std::to_string(depth + 1) + ")";
+        ++depth;
+    }
+    return prog;
+}
+
 // DFS over left-deep chains: node = value so far; extensions: 16 (op, leaf kind) + unary minus
-static void chain_dfs(Ctx& ctx, const Val& lv, const RefVal& rv, const std::string& prog, int depth, int maxdepth, long& count) {
+static void chain_dfs(Ctx& ctx, const Val& lv, const RefVal& rv, int l0, std::vector<int>& path, int maxdepth, long& count) {
+    const int depth = (int)path.size();
     if (depth >= maxdepth) return;
     for (int ext = 0; ext < 17; ++ext) {
         Val nl;
         RefVal nr;
-        std::string np;
+        path.push_back(ext);
+        auto name = [&] { return chain_name(l0, path); };
         if (ext == 16) {
             if (!can_neg(lv)) {
                 ctx.note("programs: unary minus of a complex array skipped (form does not compile)");
+                path.pop_back();
                 continue;
             }
-            nl = checked_neg(lv, prog);
+            path.pop_back();
+            nl = checked_neg(lv, [&] { return chain_name(l0, path); });
+            path.push_back(ext);
             nr = ref_neg(rv);
-            np = "-(" + prog + ")";
         } else {
             Val leaf;
             RefVal rleaf;
             make_leaf(ext & 3, depth + 1, leaf, rleaf);
             nl = lib_apply(OPS[ext >> 2], lv, leaf);
             nr = ref_apply(OPS[ext >> 2], rv, rleaf);
-            np = "(" + prog + " " + OPS[ext >> 2] + " " + leaf_name(ext & 3) + std::to_string(depth + 1) + ")";
         }
         ++count;
-        if (!prog_compare(ctx, nl, nr, np)) {
-            if (ctx.violations > 20) return;
-            continue;
-        }
-        chain_dfs(ctx, nl, nr, np, depth + 1, maxdepth, count);
+        if (prog_compare(ctx, nl, nr, name)) chain_dfs(ctx, nl, nr, l0, path, maxdepth, count);
+        path.pop_back();
+        if (ctx.violations > 20) return;
     }
 }
 
@@ -1158,7 +1376,28 @@ struct Tree   // depth <= 1 tree: leaf, neg(leaf) or leaf op leaf
     int kind;   // 0 leaf, 1 neg, 2 binary
     int l, r, op;
 };
-static void eval_tree(const Tree& t, int& pos, Val& lv, RefVal& rv, std::string& s) {
+static void eval_tree(const Tree& t, int& pos, Val& lv, RefVal& rv, std::string& s, bool want_name = true) {
+    if (!want_name) {
+        // same evaluation, names rendered by tree_name() only when needed
+        if (t.kind == 0) {
+            make_leaf(t.l, pos++, lv, rv);
+        } else if (t.kind == 1) {
+            Val a;
+            RefVal ra;
+            const int p0 = pos;
+            make_leaf(t.l, pos++, a, ra);
+            lv = checked_neg(a, [&] { return std::string(leaf_name(t.l)) + std::to_string(p0); });
+            rv = ref_neg(ra);
+        } else {
+            Val a, b;
+            RefVal ra, rb;
+            make_leaf(t.l, pos++, a, ra);
+            make_leaf(t.r, pos++, b, rb);
+            lv = lib_apply(OPS[t.op], a, b);
+            rv = ref_apply(OPS[t.op], ra, rb);
+        }
+        return;
+    }
     if (t.kind == 0) {
         make_leaf(t.l, pos, lv, rv);
         s = std::string(leaf_name(t.l)) + std::to_string(pos);
@@ -1186,8 +1425,115 @@ static void eval_tree(const Tree& t, int& pos, Val& lv, RefVal& rv, std::string&
     }
 }
 
+static std::string tree_name(const Tree& t, int pos) {
+    if (t.kind == 0) return std::string(leaf_name(t.l)) + std::to_string(pos);
+    if (t.kind == 1) return std::string("-") + leaf_name(t.l) + std::to_string(pos);
+    return "(" + std::string(leaf_name(t.l)) + std::to_string(pos) + " " + OPS[t.op] + " " + leaf_name(t.r) + std::to_string(pos + 1) + ")";
+}
+
+// ---- aliasing programs: sequences of statements on ONE array variable a (and a fixed second array b):
+//      a op= a | a op= b | a = a op a | a = a op b | a = b op a  (4 operators each)  | a = -a        (21 statement kinds)
+static const int NSTMT = 21;
+static std::string stmt_name(int st) {
+    if (st == 20) return "a = -a";
+    const char op = OPS[st & 3];
+    switch (st >> 2) {
+        case 0: return std::string("a ") + op + "= a";
+        case 1: return std::string("a ") + op + "= b";
+        case 2: return std::string("a = a ") + op + " a";
+        case 3: return std::string("a = a ") + op + " b";
+        default: return std::string("a = b ") + op + " a";
+    }
+}
+static std::string stmts_name(const std::vector<int>& path) {
+    std::string s;
+    for (int st : path) s += (s.empty() ? "" : "; ") + stmt_name(st);
+    return s;
+}
+// executes one statement on the real arrays (a is modified in place, exactly as the statement reads)
+static void lib_stmt(int st, Val& a, const Val& b) {
+    std::visit(
+        [&](auto& x, const auto& y) {
+            using X = std::decay_t<decltype(x)>;
+            using Y = std::decay_t<decltype(y)>;
+            constexpr bool ok = (std::is_same_v<X, arr_real> && std::is_same_v<Y, arr_real>) || (std::is_same_v<X, arr_cmplx> && (std::is_same_v<Y, arr_real> || std::is_same_v<Y, arr_cmplx>));
+            if constexpr (!ok) {
+                fprintf(stderr, "lib_stmt: unsupported operand types\n");
+                exit(4);
+            } else {
+                if (st == 20) {
+                    if constexpr (neg_compiles<X>()) x = -x;
+                    return;
+                }
+                X& al = x;   // second name of the same object
+                switch (st) {
+                    case 0: x += al; break;
+                    case 1: x -= al; break;
+                    case 2: x *= al; break;
+                    case 3: x /= al; break;
+                    case 4: x += y; break;
+                    case 5: x -= y; break;
+                    case 6: x *= y; break;
+                    case 7: x /= y; break;
+                    case 8: x = x + al; break;
+                    case 9: x = x - al; break;
+                    case 10: x = x * al; break;
+                    case 11: x = x / al; break;
+                    case 12: x = x + y; break;
+                    case 13: x = x - y; break;
+                    case 14: x = x * y; break;
+                    case 15: x = x / y; break;
+                    case 16: x = y + x; break;
+                    case 17: x = y - x; break;
+                    case 18: x = y * x; break;
+                    default: x = y / x; break;
+                }
+            }
+        },
+        a, b);
+}
+static RefVal ref_stmt(int st, const RefVal& a, const RefVal& b) {
+    if (st == 20) return ref_neg(a);
+    const char op = OPS[st & 3];
+    switch (st >> 2) {
+        case 0:
+        case 2: return ref_apply(op, a, a);
+        case 1:
+        case 3: return ref_apply(op, a, b);
+        default: {
+            RefVal r = ref_apply(op, b, a);
+            return r;
+        }
+    }
+}
+static void alias_dfs(Ctx& ctx, const Val& a, const RefVal& ra, const Val& b, const RefVal& rb, const Val& b0, std::vector<int>& path, int maxdepth, long& count) {
+    if ((int)path.size() >= maxdepth) return;
+    for (int st = 0; st < NSTMT; ++st) {
+        if (st == 20 && !can_neg(a)) continue;
+        Val na = a;
+        lib_stmt(st, na, b);
+        RefVal nr = ref_stmt(st, ra, rb);
+        nr.cplx = ra.cplx;   // the variable keeps its element type
+        path.push_back(st);
+        ++count;
+        auto name = [&] { return stmts_name(path); };
+        bool ok = prog_compare(ctx, na, nr, name);
+        if (st == 20) {
+            std::string why;
+            if (!neg_bits_ok(a, na, why)) ctx.fail("expression", "a = -a: " + why, "every component negated bit for bit", P().kv("prog", name()));
+        }
+        if (b.index() != b0.index() || (b.index() == 2 ? !bitsame(std::get<2>(b), std::get<2>(b0)) : !bitsame(std::get<3>(b), std::get<3>(b0)))) {
+            ctx.fail("expression", "the second array b was modified by a statement on a", "unchanged", P().kv("prog", name()));
+            ok = false;
+        }
+        if (ok) alias_dfs(ctx, na, nr, b, rb, b0, path, maxdepth, count);
+        path.pop_back();
+        if (ctx.violations > 20) return;
+    }
+}
+
 static void programs(Ctx& ctx, bool T) {
-    // ---- trees of depth <= 2
+    // ---- trees of depth <= 2 (all); thorough: all depth-3 trees  (t2 op t1) and (t1 op t2), t2 of depth <= 2, t1 of depth <= 1
     std::vector<Tree> t1;
     for (int l = 0; l < 4; ++l) t1.push_back({0, l, 0, 0});
     for (int l = 0; l < 4; ++l)
@@ -1197,7 +1543,8 @@ static void programs(Ctx& ctx, bool T) {
             for (int r = 0; r < 4; ++r) t1.push_back({2, l, r, op});
     for (size_t a = 0; a < t1.size(); ++a)
         for (int op = 0; op <= 4; ++op) {   // op 4 = unary minus of the subtree
-            if (!ctx.take("prog.tree", P().kv("left", (int)a).kv("op", op))) continue;
+            if (!ctx.take("prog.tree", P().kv("left", (int)a).kv("op", op).kv("depth", T ? 3 : 2))) continue;
+            long deep = 0;
             for (size_t b = 0; b < (op == 4 ? 1 : t1.size()); ++b) {
                 int pos = 0;
                 Val la, lb, lr;
@@ -1219,13 +1566,38 @@ static void programs(Ctx& ctx, bool T) {
                     rr = ref_apply(OPS[op], ra, rb);
                     s = "(" + sa + " " + OPS[op] + " " + sb + ")";
                 }
-                prog_compare(ctx, lr, rr, s);
+                if (!prog_compare(ctx, lr, rr, s)) continue;
                 ctx.note("programs.trees");
+                if (!T) continue;
+                // depth 3: the tree above as one operand, every depth<=1 tree (leaves numbered from 4) as the other
+                for (size_t c = 0; c < t1.size(); ++c) {
+                    int pc = 4;
+                    Val lc;
+                    RefVal rc;
+                    std::string dummy;
+                    eval_tree(t1[c], pc, lc, rc, dummy, false);
+                    for (int op2 = 0; op2 < 4; ++op2)
+                        for (int side = 0; side < 2; ++side) {
+                            const Val v = side ? lib_apply(OPS[op2], lc, lr) : lib_apply(OPS[op2], lr, lc);
+                            const RefVal r = side ? ref_apply(OPS[op2], rc, rr) : ref_apply(OPS[op2], rr, rc);
+                            ++deep;
+                            prog_compare(ctx, v, r, [&] {
+                                const std::string sc = tree_name(t1[c], 4);
+                                return side ? "(" + sc + " " + OPS[op2] + " " + s + ")" : "(" + s + " " + OPS[op2] + " " + sc + ")";
+                            });
+                        }
+                    if (ctx.violations > 20) break;
+                }
+            }
+            if (deep) {
+                ctx.note("programs.trees-depth3", deep);
+                ctx.evaluations += (uint64_t)deep;
+                ctx.checks[ctx.cur_check].evals += (uint64_t)deep;
             }
             ctx.nontrivial();
         }
     // ---- left-deep chains; case = prefix of two extensions, DFS below
-    const int maxdepth = T ? 6 : 5;
+    const int maxdepth = T ? (g_asan ? 6 : 7) : 5;
     for (int l0 = 0; l0 < 4; ++l0)
         for (int e1 = 0; e1 < 17; ++e1)
             for (int e2 = 0; e2 < 17; ++e2) {
@@ -1233,42 +1605,82 @@ static void programs(Ctx& ctx, bool T) {
                 Val lv;
                 RefVal rv;
                 make_leaf(l0, 0, lv, rv);
-                std::string prog = std::string(leaf_name(l0)) + "0";
+                std::vector<int> path;
                 bool ok = true;
-                int depth = 0;
                 for (int e : {e1, e2}) {
                     Val nl;
                     RefVal nr;
+                    const int depth = (int)path.size();
                     if (e == 16) {
                         if (!can_neg(lv)) {
                             ctx.note("programs: unary minus of a complex array skipped (form does not compile)");
                             ok = false;
                             break;
                         }
-                        nl = checked_neg(lv, prog);
+                        nl = checked_neg(lv, [&] { return chain_name(l0, path); });
                         nr = ref_neg(rv);
-                        prog = "-(" + prog + ")";
                     } else {
                         Val leaf;
                         RefVal rleaf;
                         make_leaf(e & 3, depth + 1, leaf, rleaf);
                         nl = lib_apply(OPS[e >> 2], lv, leaf);
                         nr = ref_apply(OPS[e >> 2], rv, rleaf);
-                        prog = "(" + prog + " " + OPS[e >> 2] + " " + leaf_name(e & 3) + std::to_string(depth + 1) + ")";
                     }
+                    path.push_back(e);
                     lv = nl;
                     rv = nr;
-                    ++depth;
-                    if (!prog_compare(ctx, lv, rv, prog)) {
+                    if (!prog_compare(ctx, lv, rv, [&] { return chain_name(l0, path); })) {
                         ok = false;
                         break;
                     }
                 }
                 long count = 2;
-                if (ok) chain_dfs(ctx, lv, rv, prog, 2, maxdepth, count);
+                if (ok) chain_dfs(ctx, lv, rv, l0, path, maxdepth, count);
                 ctx.note("programs.chain-nodes", count);
                 ctx.evaluations += (uint64_t)count - 1;
                 ctx.checks[ctx.cur_check].evals += (uint64_t)count - 1;
+                ctx.nontrivial();
+            }
+    // ---- aliasing programs; case = (operand types, first two statements), DFS below
+    const int adepth = T ? (g_asan ? 5 : 6) : 4;
+    for (int cfg = 0; cfg < 3; ++cfg)   // (a,b) = (real,real), (cmplx,cmplx), (cmplx,real)
+        for (int s1 = 0; s1 < NSTMT; ++s1)
+            for (int s2 = 0; s2 < NSTMT; ++s2) {
+                if (!ctx.take("prog.alias", P().kv("types", cfg == 0 ? "real,real" : (cfg == 1 ? "cmplx,cmplx" : "cmplx,real")).kv("s1", s1).kv("s2", s2).kv("depth", adepth))) continue;
+                Val a, b;
+                RefVal ra, rb;
+                make_leaf(cfg == 0 ? 0 : 1, 0, a, ra);
+                make_leaf(cfg == 1 ? 1 : 0, 1, b, rb);
+                const Val b0 = b;
+                std::vector<int> path;
+                long count = 0;
+                bool ok = true;
+                for (int st : {s1, s2}) {
+                    if (st == 20 && !can_neg(a)) {
+                        ok = false;
+                        break;
+                    }
+                    const Val before = a;
+                    lib_stmt(st, a, b);
+                    ra = ref_stmt(st, ra, rb);
+                    ra.cplx = cfg != 0;
+                    path.push_back(st);
+                    ++count;
+                    if (st == 20) {
+                        std::string why;
+                        if (!neg_bits_ok(before, a, why)) ctx.fail("expression", "a = -a: " + why, "every component negated bit for bit", P().kv("prog", stmts_name(path)));
+                    }
+                    if (!prog_compare(ctx, a, ra, [&] { return stmts_name(path); })) {
+                        ok = false;
+                        break;
+                    }
+                }
+                if (ok) alias_dfs(ctx, a, ra, b, rb, b0, path, adepth, count);
+                ctx.note("programs.alias-nodes", count);
+                if (count) {
+                    ctx.evaluations += (uint64_t)count - 1;
+                    ctx.checks[ctx.cur_check].evals += (uint64_t)count - 1;
+                }
                 ctx.nontrivial();
             }
 }
@@ -1570,6 +1982,16 @@ int main(int argc, char** argv) {
             });
         });
     });
+    if (ctx.wants("stdc.equiv"))
+        for_types<arr_real, arr_cmplx>([&](auto at) {
+            using A = typename decltype(at)::type;
+            for_types<Add, Sub, Mul, Div>([&](auto opt) {
+                using Op = typename decltype(opt)::type;
+                if constexpr (binary_supported<A, stdc, Op>()) grid_stdc_equiv<A, Op>(ctx, 0);
+                if constexpr (binary_supported<stdc, A, Op>()) grid_stdc_equiv<A, Op>(ctx, 1);
+                if constexpr (Tr<A>::cplx) grid_stdc_equiv<A, Op>(ctx, 2);
+            });
+        });
     if (ctx.wants("unary")) {
         unary_checks<arr_real>(ctx, T);
         unary_checks<arr_cmplx>(ctx, T);
@@ -1586,6 +2008,11 @@ int main(int argc, char** argv) {
     zeropad_checks<cmplx_t>(ctx);
     selection_checks<real_t>(ctx, T);
     selection_checks<cmplx_t>(ctx, T);
-    if (ctx.wants("prog.tree") || ctx.wants("prog.chain")) programs(ctx, T);
+    if (ctx.wants("big.mask") || ctx.wants("big.indexlist") || ctx.wants("big.concat")) {
+        big_checks<real_t>(ctx);
+        big_checks<cmplx_t>(ctx);
+    }
+    big_mixed_concat(ctx);
+    if (ctx.wants("prog.tree") || ctx.wants("prog.chain") || ctx.wants("prog.alias")) programs(ctx, T);
     return ctx.finish();
 }
